@@ -146,7 +146,7 @@ class C02(C01):
             "(anyof_construct / allof_construct), and inputs already resolved at construction time are not covered",
     }
     quick_cases = 1000
-    thorough_cases = 50000
+    thorough_cases = 25000
     rule = ("C01 programs (no crash actions) plus 1–3 waiter processes that park on plain futures or on any_of/all_of trees of depth ≤3 "
             "(some after a delay, some yielding the same future twice) and 1–4 resolver handlers (plain or generator) that resolve "
             "the plain futures, possibly twice, before / at / after the wait instant. Non-trivial = at least one process was resumed "
